@@ -80,6 +80,39 @@ func readProgress(path string, fams []Family) []CaseRef {
 	return out
 }
 
+// RepeatMany is the number of immediate re-executions of every 256th case; every 16th case is re-executed once.
+const RepeatMany = 12
+
+// runCaseRep executes a case and, for a fixed share of the cases, executes the SAME case again right away (same
+// generated inputs, same calls, same oracle). Random workloads almost never present the same input twice, so the hit
+// path of any memo, the second use of a pooled buffer for the same size, a per-key counter - whatever a library keeps
+// about an input between calls - would otherwise only ever be exercised by the structured families that happen to
+// repeat inputs. Every 16th case runs twice; every 256th runs 1+RepeatMany times. Repetitions are ordinary monitored
+// executions (their evaluations count); exact enumeration counters are not advanced twice (DistinctExact).
+func (w *W) runCaseRep(f *Family, idx int) {
+	w.rep = 0
+	w.runCase(f, idx)
+	n := 0
+	switch {
+	case f.NoRepeat || f.N < 32 || f.Name == "env-sweep":
+		// small families are the hand-made heavy ones (2^31-bit bitmaps, 2^18 keys, long runs); the env-sweep is a
+		// repetition already
+	case idx%256 == 37:
+		n = RepeatMany
+	case idx%16 == 5:
+		n = 1
+	}
+	before := len(w.viols)
+	for k := 1; k <= n && len(w.viols) == before; k++ {
+		w.rep = k
+		w.runCase(f, idx)
+	}
+	if n > 0 && w.id >= 0 {
+		w.buckets["cases-repeated-immediately"] += int64(n)
+	}
+	w.rep = 0
+}
+
 // BlockedTicks is the number of consecutive idle watchdog ticks after which an in-flight case counts as blocked.
 const BlockedTicks = 120
 
@@ -281,7 +314,7 @@ func RunChild(p *Prop, cfg *Config) int {
 					fi := fis[k]
 					idx := j - offs[k]
 					prog.set(w.id, fi, idx, true)
-					w.runCase(&fams[fi], idx)
+					w.runCaseRep(&fams[fi], idx)
 					prog.set(w.id, fi, idx, false)
 				}
 			}(workers[wi])
@@ -313,7 +346,7 @@ func RunChild(p *Prop, cfg *Config) int {
 					if prog != nil {
 						prog.set(w.id, jobs[j].fi, jobs[j].idx, true)
 					}
-					w.runCase(&fams[jobs[j].fi], jobs[j].idx)
+					w.runCaseRep(&fams[jobs[j].fi], jobs[j].idx)
 					if prog != nil {
 						prog.set(w.id, jobs[j].fi, jobs[j].idx, false)
 					}
@@ -377,7 +410,17 @@ func RunChild(p *Prop, cfg *Config) int {
 				found = true
 				runtime.LockOSThread()
 				serialW.tid.Store(int64(syscall.Gettid()))
-				serialW.runCase(&fams[fi], cfg.Only.Idx)
+				// a replayed case is repeated like the most-repeated cases of a run (runCaseRep): a witness that needs the
+				// same calls several times in a row reproduces
+				reps := RepeatMany
+				if fams[fi].NoRepeat || fams[fi].N < 32 || fams[fi].Name == "env-sweep" {
+					reps = 0
+				}
+				for k := 0; k <= reps && !serialW.Failed(); k++ {
+					serialW.rep = k
+					serialW.runCase(&fams[fi], cfg.Only.Idx)
+				}
+				serialW.rep = 0
 				serialW.tid.Store(0)
 				runtime.UnlockOSThread()
 			}
@@ -401,7 +444,7 @@ func RunChild(p *Prop, cfg *Config) int {
 				serialW.tid.Store(int64(syscall.Gettid()))
 				for idx := 0; idx < fams[fi].N; idx++ {
 					prog.set(serialW.id, fi, idx, true)
-					serialW.runCase(&fams[fi], idx)
+					serialW.runCaseRep(&fams[fi], idx)
 					prog.set(serialW.id, fi, idx, false)
 				}
 				serialW.tid.Store(0)
